@@ -107,6 +107,9 @@ def impl(op, a):
         return [[int(_pdu(a[:4])[0] == _pdu(a[4:8])[0])]]
     if op == 1378:
         return [[_pdu(a)[0].get_max_seg_reqs_for_max_packet_size(a[4][0])]]
+    if op == 1379:
+        e = list(a[1]) + [0] * (len(a[0]) - len(a[1]))
+        return _fields(NakPdu.unpack(bytes(x ^ y for x, y in zip(a[0], e))))
     raise RuntimeError("bad op")
 
 
@@ -339,6 +342,27 @@ def streams(tier, rng):
         elif k == 7 and a[1][1] == 0: b[1][1] = 1
         cases.append((1377, a + b))
     yield "nak_equality", "exact", cases
+    # 9b. C04: CRC-flagged packed PDUs with every single-bit flip and bursts of 2..16 bits at every bit offset
+    #     outside the length-determining octets 1..3 and the CRC flag bit
+    cases = []
+    for _ in range(40 if big else 6):
+        a = _rand_pdu(rng, rng.choice([0, 1, 2]), crc=1)
+        p = lay(a)
+        nbits = 8 * len(p)
+        for start in range(nbits):
+            for blen in ([1, 2, 3, 8, 15, 16] if not big else range(1, 17)):
+                if start + blen > nbits:
+                    continue
+                bits = [start] + [b for b in range(start + 1, start + blen - 1) if rng.random() < 0.5] + ([start + blen - 1] if blen > 1 else [])
+                if any(8 <= b < 32 or b == 6 for b in bits):
+                    continue
+                e = [0] * len(p)
+                for b in bits:
+                    e[b // 8] |= 0x80 >> (b % 8)
+                while e and e[-1] == 0:
+                    e.pop()
+                cases.append((1379, [p, e]))
+    yield "nak_crc_corruption", "exact", cases
     # 9. garbage: random octets biased to NAK-like headers with valid widths and consistent lengths
     cases = []
     for _ in range(30000 if big else 4000):
@@ -461,6 +485,10 @@ def oracle(case, ires, sres):
                 return ("C06/NakPdu.unpack/undocumented-error", "unpack(%s) escaped with %s" % (b[:40], core.ERR_NAMES.get(code, code)))
             return None
         return _check_decoded(b, ires, "fold-in")
+    if op == 1379:
+        if not err or not DOC(code):
+            return ("C06/NakPdu.unpack/corrupted-accepted", "packed CRC-flagged NAK PDU %s with error pattern %s: %s" % (a[0][:40], a[1][:40], ires[:1]))
+        return None
     if op == 1373:
         b = a[0]
         if err:
